@@ -374,7 +374,8 @@ Theorem C13_tree_prepare_class :
     find AnnotProofs.is_header (Tree.nchildren t) = Some h -> Tree.is_kind AstKinds.KAstClass h = true ->
     HierTreeProofs.at_top_child t p i h ->
     DefTree.find_in (Annot.root_table_of false t) (Tree.nident h) = Some (AnnotProofs.decl_sym h) ->
-    HierTree.prepare ws (stem, t) p = DefTree.Ans (HierTree.ROk [HierTree.item_of_node HierTree.IClass stem h]).
+    HierTree.prepare ws (stem, t) p =
+    DefTree.Ans (HierTree.ROk [HierTree.item_of_node HierTree.IClass (HierTree.class_uri ws stem (Tree.nident h)) h]).
 Proof. exact HierTreeProofs.hier_prepare_char_class. Qed.
 
 Theorem C13_tree_prepare_field :
@@ -437,6 +438,69 @@ Example C13_tree_ws_prepare :
        (Lexer.mkRange (Lexer.mkPos 6 5) (Lexer.mkPos 6 8)) (Lexer.mkRange (Lexer.mkPos 6 0) (Lexer.mkPos 7 7))]).
 Proof. destruct HierTreeWitness.ht_ws_prepare as (H1 & _ & H3). split; assumption. Qed.
 
+(* ---- the uri of a prepared item (C08 for hierarchy items: the ranges lie in the document the item names) ---- *)
+(* ALL trees: the item is made from a symbol of a table T of the requested document; its uri is the document
+   get_uri_for_class finds for T's class, else (class items only) the requested document *)
+Theorem C13_tree_item_uri_any :
+  forall ws d p it, HierTree.prepare ws d p = DefTree.Ans (HierTree.ROk [it]) ->
+    exists T a, In T (AnnotProofs.tables_of false (snd d)) /\ In a (Annot.t_syms T) /\
+      HierTree.item_for ws (fst d) (Annot.cls_str T) a = HierTree.ROk [it] /\
+      HierTree.i_name it = Annot.a_name a /\
+      (HierTree.i_uri it = fst d \/
+       exists d', HierTree.doc_of ws (upper (Annot.cls_str T)) = Some d' /\ HierTree.i_uri it = fst d').
+Proof. exact HierTreeProofs.hier_item_uri. Qed.
+
+(* documents named after their classes, distinct stems, a regular document d: the item names d itself, is made
+   from a symbol of d's ROOT table, and its ranges are the declared-name range / the range of a declaration node
+   of d's own tree *)
+Theorem C13_tree_item_uri :
+  forall ws d p it,
+    In d ws -> HierTreeProofs.distinct_stems ws -> HierTreeProofs.named_by_stem ws -> AnnotProofs.regular (snd d) ->
+    HierTree.prepare ws d p = DefTree.Ans (HierTree.ROk [it]) ->
+    HierTree.i_uri it = fst d /\ HierTree.doc_of ws (upper (HierTree.i_uri it)) = Some d /\
+    (exists a, In a (Annot.t_syms (HierTree.root_of d)) /\ Annot.a_name a = HierTree.i_name it /\
+               Annot.a_sel a = HierTree.i_sel it /\ Annot.a_range a = HierTree.i_range it) /\
+    exists n, In n (Annot.visit_seq false (snd d)) /\
+      HierTree.i_sel it = Annot.name_range (snd n) /\ HierTree.i_range it = Tree.nrange (snd n) /\
+      forall L, RangeTop.Forall_nodes (RangeTop.NodeWf L) (snd d) -> RangeBase.inside (HierTree.i_sel it) (HierTree.i_range it).
+Proof. exact HierTreeProofs.C13_item_uri_tree. Qed.
+
+(* the rule before 6242e0e (a class item always names the REQUESTED document), on two real dumps: aKa.god =
+   two comment lines, `class aKa` on line 2; aKb.god = `class aKb (aKa)` / `Ref : aKa`.  The class symbol aKa is
+   found in aKa.god's table; the old item names aKb.god, whose tree ends above line 2, with a selection range on
+   line 2; the repaired item names aKa.god and carries the ranges of the header node of aKa.god's tree *)
+Theorem C13_old_class_item_uri_refuted :
+  exists ws dA dB a,
+    In dA ws /\ In dB ws /\ HierTreeProofs.distinct_stems ws /\ HierTreeProofs.named_by_stem ws /\
+    Forall (fun d => AnnotProofs.regular (snd d)) ws /\
+    DefTree.find_in (HierTree.root_of dA) #"aKa" = Some a /\ Annot.a_kind a = Scoping.KClass /\
+    (let it := HierTreeProofs.class_item_with true ws (fst dB) (HierTree.root_of dA) a in
+     HierTree.i_uri it = fst dB /\
+     HierTreeProofs.below_line (snd dB) (Lexer.pline (Lexer.rstart (HierTree.i_sel it))) = true) /\
+    (let it := HierTreeProofs.class_item_with false ws (fst dB) (HierTree.root_of dA) a in
+     HierTree.i_uri it = fst dA /\
+     exists n, In n (Annot.visit_seq false (snd dA)) /\ HierTree.i_sel it = Annot.name_range (snd n) /\
+               HierTree.i_range it = Tree.nrange (snd n)).
+Proof. exact HierTreeWitness.old_class_item_uri_refuted. Qed.
+
+Example C13_tree_item_uri_hypotheses :
+  In (#"aKb", HierTreeWitness.ht_kb) HierTreeWitness.ht_ws /\ HierTreeProofs.distinct_stems HierTreeWitness.ht_ws /\
+  HierTreeProofs.named_by_stem HierTreeWitness.ht_ws /\ AnnotProofs.regular HierTreeWitness.ht_kb /\
+  exists it, HierTree.prepare HierTreeWitness.ht_ws (#"aKb", HierTreeWitness.ht_kb) (Lexer.mkPos 0 7) =
+             DefTree.Ans (HierTree.ROk [it]) /\ HierTree.i_uri it = #"aKb".
+Proof. exact HierTreeWitness.ht_item_uri_hypotheses. Qed.
+
+(* the well-formed-ranges premise (C08's NodeWf) holds on the real dumps, and through C13_tree_item_ranges every item
+   prepared anywhere in aKb.god has its selection range inside its range *)
+Example C13_tree_ws_nodewf :
+  Forall (fun d => RangeTop.Forall_nodes (RangeTop.NodeWf 10%N) (snd d)) HierTreeWitness.ht_ws.
+Proof. exact HierTreeWitness.ht_ws_nodewf. Qed.
+
+Example C13_tree_ws_item_ranges_inside :
+  forall p it, HierTree.prepare HierTreeWitness.ht_ws (#"aKb", HierTreeWitness.ht_kb) p = DefTree.Ans (HierTree.ROk [it]) ->
+    RangeBase.inside (HierTree.i_sel it) (HierTree.i_range it).
+Proof. exact HierTreeWitness.ht_item_ranges_via_nodewf. Qed.
+
 Print Assumptions C13_tree_input_refines.
 Print Assumptions C13_tree_relation.
 Print Assumptions C13_tree_class_super.
@@ -455,3 +519,9 @@ Print Assumptions C13_tree_ws_hypotheses.
 Print Assumptions C13_tree_ws_input.
 Print Assumptions C13_tree_ws_answers.
 Print Assumptions C13_tree_ws_prepare.
+Print Assumptions C13_tree_item_uri_any.
+Print Assumptions C13_tree_item_uri.
+Print Assumptions C13_old_class_item_uri_refuted.
+Print Assumptions C13_tree_item_uri_hypotheses.
+Print Assumptions C13_tree_ws_nodewf.
+Print Assumptions C13_tree_ws_item_ranges_inside.
